@@ -201,7 +201,9 @@ class Container:
         current data to disk.
         """
         write_to_disk_secs = self.assignment.ram / DISK_SCAN_GB_SEC
-        write_to_disk_ticks = int(write_to_disk_secs / self.tick_length_secs)
+        # writing out always takes at least one tick (otherwise the countdown in
+        # suspend_container_tick would start at zero and never reach it)
+        write_to_disk_ticks = max(1, int(write_to_disk_secs / self.tick_length_secs))
         self.suspend_ticks = write_to_disk_ticks
         self._suspend_ticks_left = write_to_disk_ticks
 
